@@ -109,6 +109,20 @@ def programs(ctx):
                 p.bin('Mul', 6, 2, 5)                      # x * 0
                 p.make(5, t, qu * F(1, 4), u, 'frac')      # rounds to zero under most modes
                 p.neg(5, 5)
+            # ... and one is one: three units and a quantum shared among three (a portion of exactly one unit is adjusted)
+            one = qu * int(1 / qu) if qu < 1 else qu
+            p.make(1, t, one * 3 + qu, u)
+            p.num(2, F(1), 'int')
+            p.num(3, F(1), 'int')
+            p.num(4, F(1), 'int')
+            p.alloc(1, [2, 3, 4], True)
+            p.make(5, t, one, u)
+            p.unit(6, u)
+            p.num(2, one, 'frac' if F(one).denominator != 1 else 'int')
+            p.bin('Mul', 2, 6, 5)                          # number * unit
+            p.make(6, t, one * 2, u)
+            p.num(3, F(2), 'int')
+            p.bin('Div', 6, 3, 5)                          # (2 units) / 2
         progs.append(p.d())
     # an amount with nine decimals divided by the quantum 1 (where the pinned decimalfp mis-divides, DESIGN 5.2)
     p = Prog('c05-dep')
